@@ -9,7 +9,7 @@
 
 enum { IN_TEXT, IN_RANDOM, IN_EMPTY };
 // script steps: action + cumulative input offset in units of 1/4 of the input (q=4 -> all input)
-enum { A_RUN = 'R', A_FLUSH = 'F', A_BARRIER = 'B', A_FINISH = 'X', A_UPDATE_OK = 'U', A_UPDATE_BAD = 'u', A_REINIT_SAME = 'S', A_REINIT_DIFF = 'D', A_REINIT_BIGGER_BLOCKS = 'G', A_OFFER = 'P', A_UPDATE_ANY = 'V', A_FINISH_WORKER_ERROR = 'E' };	/* E: the chain (LZMA1) is accepted by lzma_stream_encoder_mt() but refused when a worker builds its Block Header: FINISH must return that error, and return it again */	// P: ONE lzma_code(LZMA_RUN) call offering everything up to the offset with one more byte of output space; V: filters_update whose outcome depends on whether a Block is open
+enum { A_RUN = 'R', A_FLUSH = 'F', A_BARRIER = 'B', A_FINISH = 'X', A_UPDATE_OK = 'U', A_UPDATE_BAD = 'u', A_REINIT_SAME = 'S', A_REINIT_DIFF = 'D', A_REINIT_BIGGER_BLOCKS = 'G', A_OFFER = 'P', A_UPDATE_ANY = 'V', A_FINISH_WORKER_ERROR = 'E', A_REINIT_ONE = 'O' };	/* O: re-init with ONE thread (the output queue shrinks below what is queued) */	/* E: the chain (LZMA1) is accepted by lzma_stream_encoder_mt() but refused when a worker builds its Block Header: FINISH must return that error, and return it again */	// P: ONE lzma_code(LZMA_RUN) call offering everything up to the offset with one more byte of output space; V: filters_update whose outcome depends on whether a Block is open
 typedef struct { const char *script; int input, plen, bsz, threads, timeout, outchunk, inchunk, early; int bp, bt, bs; int tier; } row;
 // script syntax: pairs <action><quarter>, e.g. "R2X4" = RUN up to half the input, then FINISH with the rest.
 static const row ROWS[] = {
@@ -56,6 +56,8 @@ static const row ROWS[] = {
 	{ "R2G0X4",      IN_TEXT,    8,   2,  2,  0, 0,  0, 0,    1, 0, 0, 0 },	// re-init, same thread count, three times the block size (input buffers must be re-made)
 	{ "X4G0X4",      IN_RANDOM,  8,   2,  2,  0, 0,  0, 0,    0, 0, 0, 0 },
 	{ "X4G0X4",      IN_RANDOM,  12,  2,  2,  0, 0,  0, 0,    1, 0, 0, 1 },
+	{ "P4O0X4",      IN_TEXT,    12,  4,  3,  0, 0,  0, 0,    1, 0, 0, 0 },	// three Blocks queued (only the Stream Header could be written), then re-init with one thread: more buffers in the queue than the new limit
+	{ "P4O0X4",      IN_TEXT,    16,  4,  3,  0, 0,  0, 0,    0, 0, 0, 0 },
 	{ "E4",          IN_TEXT,    8,   4,  2,  0, 0,  0, 0,    2, 0, 0, 0 },	// every worker fails: the error must reach the caller (no wait for output that never comes)
 	{ "E4",          IN_TEXT,    12,  4,  3,  0, 0,  0, 0,    1, 0, 0, 0 },
 	{ "E4",          IN_TEXT,    8,   4,  2,  1, 1,  0, 0,    1, 1, 0, 0 },
@@ -114,7 +116,7 @@ static int enc_init(lzma_stream *s, int threads) {
 static int expected_blocks(size_t *sz, uint64_t *chain_change_at) {
 	int n = 0; size_t start = 0; const char *p = R->script; *chain_change_at = (uint64_t)-1; size_t prev = 0; int after_reinit = 0; size_t bs = (size_t)R->bsz;
 	for (; *p; p += 2) { size_t upto = plen * (p[1] - '0') / 4; char a = p[0];
-		if (a == A_REINIT_SAME || a == A_REINIT_DIFF || a == A_REINIT_BIGGER_BLOCKS) { n = 0; start = 0; after_reinit = 1; *chain_change_at = (uint64_t)-1; if (a == A_REINIT_BIGGER_BLOCKS) bs = (size_t)R->bsz * 3; continue; }
+		if (a == A_REINIT_SAME || a == A_REINIT_DIFF || a == A_REINIT_BIGGER_BLOCKS || a == A_REINIT_ONE) { n = 0; start = 0; after_reinit = 1; *chain_change_at = (uint64_t)-1; if (a == A_REINIT_BIGGER_BLOCKS) bs = (size_t)R->bsz * 3; continue; }
 		if (a == A_UPDATE_OK) { *chain_change_at = n; continue; }
 		if (a == A_UPDATE_BAD || a == A_UPDATE_ANY || a == A_OFFER) continue;
 		if (after_reinit) { after_reinit = 0; }
@@ -146,8 +148,8 @@ static void run_script(obs *o, int threads, int probe) {
 			else if (u == LZMA_PROG_ERROR && !boundary) o->chg_dyn = -1;
 			else BAD(o, "filters_update returned %d with %llu bytes consumed (block size %zu)", u, (unsigned long long)s.total_in, bs); break; }
 		case A_UPDATE_BAD: { lzma_ret u = lzma_filters_update(&s, flt2); if (u == LZMA_OK) BAD(o, "filters_update inside a Block accepted"); u = lzma_filters_update(&s, fltbad); if (u == LZMA_OK) BAD(o, "invalid chain accepted by filters_update"); break; }
-		case A_REINIT_SAME: case A_REINIT_DIFF: case A_REINIT_BIGGER_BLOCKS: {
-			int nt = p[0] != A_REINIT_DIFF ? threads : (threads == 1 ? 2 : threads - 1); if (p[0] == A_REINIT_BIGGER_BLOCKS) bsz_now = (size_t)R->bsz * 3;
+		case A_REINIT_SAME: case A_REINIT_DIFF: case A_REINIT_BIGGER_BLOCKS: case A_REINIT_ONE: {
+			int nt = p[0] == A_REINIT_ONE ? 1 : p[0] != A_REINIT_DIFF ? threads : (threads == 1 ? 2 : threads - 1); if (p[0] == A_REINIT_BIGGER_BLOCKS) bsz_now = (size_t)R->bsz * 3;
 			if (!enc_init(&s, nt)) { r = 98; BAD(o, "re-init failed"); break; }
 			ocap = 0; s.next_out = comp; s.avail_out = 0; s.next_in = plain; s.avail_in = 0; maxpo = 0; r = LZMA_OK; break; }
 		}
